@@ -110,7 +110,10 @@ fn fold(agg: &mut Agg, prop: &dyn Prop, idx: u64, case: &Value, out: &RunOutput,
     agg.evaluations += 1;
     if prop.nontrivial(out) {
         agg.nontrivial += 1;
-        agg.distinct.insert(out.trace_hash);
+        // distinct = distinct (case, trace): systematic cases may share a seed
+        let mut hsh = out.trace_hash;
+        crate::rng::fnv(&mut hsh, case.to_string().as_bytes());
+        agg.distinct.insert(hsh);
     }
     agg.sched_distinct.insert(out.stats.sched_hash);
     agg.sim_ns += out.stats.sim_ns as u128;
